@@ -11,7 +11,7 @@ from ..core import Failure
 from ..model import MP, arr_close, first_diff
 
 ID = "C10"
-BUDGET = {"quick": 700, "thorough": 8000}
+BUDGET = {"quick": 1000, "thorough": 10000}
 TECHNIQUE = ("Hypothesis-generated (polynomial arrays, axis/keepdims/n/prepend/append/operand-shape choices) vs numpy "
              "folds on object arrays of exact model polynomials (Leibniz sum for det); method / add.reduce / "
              "add.accumulate spelling differential")
@@ -48,8 +48,19 @@ def case_st(draw, only=None):
         a = call["args"][0]["$p"]
         for key in ("to_begin", "to_end"):
             if key not in call["kw"] or draw(st.sampled_from([0, 1])):
-                k = "i" if (a["kind"] == "f" and draw(st.sampled_from([0, 1]))) else a["kind"]
+                k = "i" if (a["kind"] == "f" and draw(st.sampled_from([0, 1, 1]))) else a["kind"]
                 call["kw"][key] = {"$p": OG.related(draw, a, (draw(st.sampled_from([1, 2])),), kind=k)}
+    if fn == "diff" and call["args"][0]["$p"]["kind"] == "i" and draw(st.sampled_from([0, 1])):
+        # an integer array with fractional boundary values: the result takes numpy's promoted dtype
+        a = call["args"][0]["$p"]
+        ax = call["kw"].get("axis", -1)
+        key = draw(st.sampled_from(["prepend", "append"]))
+        if key not in call["kw"]:
+            s = list(a["shape"])
+            s[ax] = draw(st.integers(1, 2))
+            call["kw"][key] = {"$p": OG.related(draw, a, tuple(s), kind="f")}
+        else:
+            call["kw"][key]["$p"]["kind"] = "f"  # (float coefficients are stored as quarters)
     return call
 
 
